@@ -29,7 +29,7 @@ CHECKS = {
    technique="TLA+ trace validation with TLC (code -> spec, invariant ReopenInv) + bounded model checking of NutsMC"),
  "C12": dict(
    cat="model_checking", design="DESIGN.md section 6 C12",
-   text="Trace validation of histories in which ~45% of the write transactions end without a successful commit: Rollback, an oversized entry at a random position, an injected write error (with or without a partial write) or sync error at a random file mutation of the commit (verifFS hook), and read-only transactions that call mutating APIs; every method is also called on finished transactions. After each such transaction reads, full observations and shadow reopens are recorded, and TLC accepts them only if they equal the unchanged model state (actions Rollback/CommitFail/MutateRO/Finished of Nuts.tla; a failure after the last record was completely written is admitted as all-or-nothing). The action property NoEffect is model-checked on NutsMC and the SMove deviation is shown to violate it.",
+   text="Trace validation of histories in which ~45% of the write transactions end without a successful commit: Rollback, an oversized entry at a random position, an injected write error (with or without a partial write) or sync error at a random file mutation of the commit (verifFS hook), and read-only transactions that call mutating APIs; every method is also called on finished transactions. After each such transaction reads, full observations and shadow reopens are recorded, and TLC accepts them only if they equal the unchanged model state (actions Rollback/CommitFail/MutateRO/Finished of Nuts.tla; a failure after the last record was completely written is admitted as all-or-nothing). The action property NoEffect is model-checked on NutsMC and the SMove deviation is shown to violate it; Commit.tla's FaultAtomic (process and reopen serve exactly the returned transactions after any write / sync / rotation fault) is model-checked, with the pre-fix IndexDuringWrite and the known finding F-C12-4 (SyncFaultOnMark) as switches that must violate it; the recorded file mutations of every commit, including the injected faults, are validated against Commit.tla by CommitTrace.tla. One fate of a failing transaction is the fault sweep: the same transaction is re-committed with the j-th file mutation failing for j = 0, 1, ... until it goes through.",
    note="Trusts TLC, the recording wrapper and the fault injector (harness/internal/hx/fsobs.go, which checks at the end of each history that its image of the directory equals the real one).",
    technique="TLA+ trace validation with TLC (code -> spec) with fault injection through build-tag hooks + bounded model checking of NutsMC"),
  "C13": dict(
@@ -49,12 +49,12 @@ CHECKS = {
    technique="TLA+ trace validation with TLC (code -> spec) with fault injection + bounded model checking of NutsMC"),
  "C10": dict(
    cat="model_checking", design="DESIGN.md section 6 C10",
-   text="Crash images validated by TLC: a workload (multi-record transactions spanning rotations, rollbacks, an oversized-entry failure followed in the same millisecond by a committing transaction, reopen; all structures in HintKeyValAndRAMIdxMode, KV in both RAM modes; FileIO and MMap; SyncEnable on and off) runs with the verifFS hook recording every file mutation; the directory is then rebuilt for every mutation point and, for each write, with the write torn at record-field boundaries (quick: 5 boundaries, thorough: every header field, bucket, key, value-1); the real Open runs on each image in a child process and the recorded observation is a 'crash' event placed before the call it interrupted. TLC (NutsTrace!TrCrash) accepts it only if Open succeeded and served Replay(log) of the transactions that had returned, or that plus the in-flight transaction in full.",
+   text="Crash images validated by TLC: a workload (multi-record transactions spanning rotations, rollbacks, an oversized-entry failure followed in the same millisecond by a committing transaction, reopen; all structures in HintKeyValAndRAMIdxMode, KV in both RAM modes; FileIO and MMap; SyncEnable on and off) runs with the verifFS hook recording every file mutation; the directory is then rebuilt for every mutation point and, for each write, with the write torn at record-field boundaries (quick: 5 boundaries, thorough: every header field, bucket, key, value-1); the real Open runs on each image in a child process and the recorded observation is a 'crash' event placed before the call it interrupted. TLC (NutsTrace!TrCrash) accepts it only if Open succeeded and served Replay(log) of the transactions that had returned, or that plus the in-flight transaction in full. The protocol itself is specified in Commit.tla (one action per file mutation of Tx.Commit, rotation, I/O faults, Crash, PowerLoss, Recover) and model-checked (CrashAtomic, RecoverTotal, TxIdUnique; the pre-fix behaviours DupIds and TornTailAborts are switches that must produce counterexamples); CommitTrace.tla validates the hook-recorded stream of data-file mutations of ordinary histories as behaviours of Commit.tla (record order and offsets, commit mark on the last record only, Sync after every record under SyncEnable, pairwise different stored tx ids).",
    note="Trusts TLC, the recording wrapper and the image builder (the observer's final image is compared with the real directory after every workload; an unhooked mutation site is an infrastructure error). A process crash keeps every completed write; sparse mode images are judged under C02.",
    technique="TLA+ trace validation with TLC of crash images built from hook-recorded file mutations"),
  "C11": dict(
    cat="model_checking", design="DESIGN.md section 6 C11",
-   text="As C10 with SyncEnable=true and the power-loss image rule: at every mutation point each file reverts to its content at its last sync; the unsynced writes after it are dropped, or the first is kept torn at a record-field boundary; unsynced file creations and removals are kept or undone. The real Open runs on each image; TLC accepts only success serving the returned transactions (plus possibly the in-flight one in full).",
+   text="As C10 with SyncEnable=true and the power-loss image rule: at every mutation point each file reverts to its content at its last sync; the unsynced writes after it are dropped, or the first is kept torn at a record-field boundary; unsynced file creations and removals are kept or undone. The real Open runs on each image; TLC accepts only success serving the returned transactions (plus possibly the in-flight one in full). Commit.tla is model-checked with PowerLoss (invariant Durable; the switch SyncOncePerTx must violate it) and CommitTrace.tla validates that every record of every recorded commit is followed by a Sync of its file before the next record or the return.",
    note="Assumes, as the statement does, that a sync of a file also makes its directory entry durable. Out-of-order persistence of several unsynced writes is not generated (with SyncEnable the code never has more than one unsynced data write). Trusts TLC, the recording wrapper and the image builder.",
    technique="TLA+ trace validation with TLC of power-loss images built from hook-recorded file mutations"),
  "C16": dict(
